@@ -260,7 +260,19 @@ def _load_class(obj_dict: dict[str, Any]) -> Class:
 
     for class_member in members:
         class_.set_member(class_member.name, class_member)
-        _attach_parent_to_exprs(class_member, class_)
+    # Instance attributes assigned in `__init__` were built in the scope of that method, where its parameters
+    # resolve to `Class(parameter)`: they are the attributes whose lines lie within the lines of the method.
+    init = class_.members.get("__init__")
+    for class_member in class_.members.values():
+        scope: Class | Function = class_
+        if (
+            isinstance(init, Function)
+            and isinstance(class_member, Attribute)
+            and None not in (init.lineno, init.endlineno, class_member.lineno)
+            and init.lineno <= class_member.lineno <= init.endlineno  # type: ignore[operator]
+        ):
+            scope = init
+        _attach_parent_to_exprs(class_member, scope)  # type: ignore[arg-type]
     class_.labels |= set(obj_dict.get("labels", ()))
     _attach_parent_to_exprs(class_, class_)
     _attach_parent_to_docstring(class_)
